@@ -95,18 +95,18 @@ func (core *JApiCore) collectPathVariables(d *directive.Directive) *jerr.JApiErr
 		return d.KeywordError(jerr.ParentNotFound)
 	}
 
-	parentDirective := *d.Parent
-
+	// Two Path directives are duplicates when they belong to the very same parent
+	// directive. The parent's position in the text doesn't identify it: every PASTE
+	// of a macro makes a new copy of the macro's directives.
 	if len(core.rawPathVariables) != 0 {
-		prevParent := core.rawPathVariables[len(core.rawPathVariables)-1].parentDirective
-		if prevParent.Equal(parentDirective) {
+		if core.rawPathVariables[len(core.rawPathVariables)-1].parentDirective == d.Parent {
 			return d.KeywordError(jerr.NotUniqueDirective)
 		}
 	}
 
 	core.rawPathVariables = append(core.rawPathVariables, rawPathVariable{
 		pathDirective:   *d,
-		parentDirective: parentDirective,
+		parentDirective: d.Parent,
 		schema:          s.JSchema,
 		parameters:      pp,
 	})
